@@ -36,6 +36,12 @@
 #include <dispenso/parallel_for.h>
 #include "vf.h"
 
+#if defined(__has_feature)
+#if __has_feature(address_sanitizer)
+#define VF_NATIVE_REPLAY 1
+#endif
+#endif
+
 #ifndef VF_N
 #define VF_N 1
 #endif
@@ -167,7 +173,11 @@ struct MockTaskSet {
     g_inTask = saved;
     g_frameCalls = savedCalls;
     --self->running;
+#ifdef VF_NATIVE_REPLAY
     delete f;
+#endif
+    // solver build: the (trivially destructible) closure object is simply never reused; modelling
+    // its deallocation only adds lifetime bookkeeping to every later pointer access
   }
 
   // a free thread exists that could start one more stored closure right now
